@@ -62,9 +62,25 @@ bool in_window(const void* p) {
   uintptr_t a = (uintptr_t)p, b = (uintptr_t)g_base;
   return g_base != nullptr && a >= b && a < b + SPACE;
 }
+// scenario real: pages come from babylon's own allocator stack (arbitrary heap addresses); the recording
+// decorator gives every live page a virtual address (lowest free odd ordinal * P, as RecPages does)
+std::map<uintptr_t, long> g_real_pages; // real page base -> virtual address
+size_t g_real_P = 0;
 long vaddr(const void* p) {
   if (p == nullptr) return 0;
-  return in_window(p) ? (long)((uintptr_t)p - (uintptr_t)g_base) : -1;
+  if (in_window(p)) return (long)((uintptr_t)p - (uintptr_t)g_base);
+  if (!g_real_pages.empty()) {
+    auto it = g_real_pages.upper_bound((uintptr_t)p);
+    if (it != g_real_pages.begin()) {
+      --it;
+      if ((uintptr_t)p - it->first <= g_real_P) return it->second + (long)((uintptr_t)p - it->first);
+    }
+  }
+  return -1;
+}
+// memory the driver may write its canaries into
+bool mapped(const void* p) {
+  return p != nullptr && vaddr(p) > 0;
 }
 
 // ---------------------------------------------------------------- recording page allocator
@@ -100,6 +116,53 @@ struct RecPages : public ::babylon::PageAllocator {
       if (ok) {
         out[(size_t)(v / (long)P / 2)] = 0;
         memset(p, 0xDD, P);
+      }
+    }
+  }
+};
+
+// ---------------------------------------------------------------- recording decorator around a real allocator
+// Forwards to babylon's own PageAllocator stack and logs the calls.  The monotonic resources rely on
+//   page pointer % page_size == 0       (do_allocate_in_new_page serves every alignment <= page_size
+//                                        request from the start of a fresh page)
+// which is an ENVIRONMENT ASSUMPTION of spec/Mono.tla (EnvPagesAligned): "pm" carries the real remainder.
+struct RealPages : public ::babylon::PageAllocator {
+  ::babylon::PageAllocator* inner = nullptr;
+  std::vector<char> out;
+  long batches = 0;
+  size_t page_size() const noexcept override {
+    return inner->page_size();
+  }
+  using PageAllocator::allocate;
+  using PageAllocator::deallocate;
+  void allocate(void** pages, size_t num) noexcept override {
+    size_t P = inner->page_size();
+    inner->allocate(pages, num);
+    for (size_t j = 0; j < num; j++) {
+      size_t i = 0;
+      while (i < out.size() && out[i]) i++;
+      if (i == out.size()) out.push_back(0);
+      if ((2 * i + 2) * P > UB) driver_error("virtual page window exhausted");
+      out[i] = 1;
+      long v = (long)((2 * i + 1) * P);
+      g_real_pages[(uintptr_t)pages[j]] = v;
+      memset(pages[j], 0xA5, P);
+      vsched::eventf(false, "\"k\":\"palloc\",\"pg\":%ld,\"pm\":%ld", v, (long)((uintptr_t)pages[j] % P));
+    }
+  }
+  void deallocate(void** pages, size_t num) noexcept override {
+    size_t P = inner->page_size();
+    long bi = batches++;
+    for (size_t j = 0; j < num; j++) {
+      void* p = pages[j];
+      auto it = g_real_pages.find((uintptr_t)p);
+      bool ok = it != g_real_pages.end();
+      vsched::eventf(false, "\"k\":\"pfree\",\"pg\":%ld,\"ok\":%s,\"bi\":%ld,\"bn\":%zu", ok ? it->second : -1l, ok ? "true" : "false", bi, num);
+      if (ok) {
+        out[(size_t)(it->second / (long)P / 2)] = 0;
+        g_real_pages.erase(it);
+        memset(p, 0xDD, P);
+        inner->deallocate(p); // only pages the real allocator handed out go back to it
       }
     }
   }
@@ -281,7 +344,7 @@ std::vector<std::string> split(const std::string& s, char sep) {
 
 // the ConcurrentAdder behind allocate_oversize_page_num() creates its thread local slot lazily with an
 // aligned operator new: do that before aligned news are diverted to the "dflt" upstream
-void prime(RecPages& pages) {
+void prime() {
   struct Tmp : std::pmr::memory_resource {
     void* do_allocate(size_t n, size_t) override {
       return malloc(n);
@@ -304,7 +367,7 @@ void prime(RecPages& pages) {
       for (size_t i = 0; i < n; i++) free(p[i]);
     }
   } tp;
-  (void)pages;
+
   Excl r;
   r.set_page_allocator(tp);
   r.set_upstream(tmp);
@@ -315,14 +378,10 @@ void prime(RecPages& pages) {
 }
 
 // ---------------------------------------------------------------- scenario seq
-void scenario_seq(const vrun::Params& p) {
-  make_window();
-  RecPages pages;
-  pages.P = (size_t)p.get("P", 256);
+void run_sequential(const vrun::Params& p, ::babylon::PageAllocator& pages, bool divert) {
   RecUpstream rec;
-  prime(pages);
   vrun::begin();
-  g_divert = true;
+  g_divert = divert;
   Excl* r = new Excl;
   r->set_page_allocator(pages);
   r->set_upstream(rec);
@@ -342,9 +401,10 @@ void scenario_seq(const vrun::Params& p) {
     else if (how == 't' && al == 64) q = r->allocate<64>(b);
     else if (how == 'v') q = static_cast<std::pmr::memory_resource*>(r)->allocate(b, al);
     else q = r->allocate(b, al);
-    ret_common("alloc", ",\"n\":" + std::to_string(b) + ",\"al\":" + std::to_string(al) + ",\"a\":" + std::to_string(vaddr(q)));
+    ret_common("alloc", ",\"n\":" + std::to_string(b) + ",\"al\":" + std::to_string(al) + ",\"a\":" + std::to_string(vaddr(q)) + ",\"am\":" +
+                            std::to_string(al ? (long)((uintptr_t)q % al) : 0l));
     // fill only memory inside the window (a block outside is reported by the specification, not by a crash here)
-    if (b > 0 && in_window(q) && in_window((char*)q + b - 1)) {
+    if (b > 0 && mapped(q) && mapped((char*)q + b - 1)) {
       unsigned char pat = (unsigned char)(0x21 + g_blocks.size() % 90);
       memset(q, pat, b);
       g_blocks.push_back({(char*)q, b, pat});
@@ -432,6 +492,44 @@ void scenario_seq(const vrun::Params& p) {
   vsched::event("\"k\":\"ret\",\"op\":\"destroy\",\"fb\":0,\"fe\":0,\"used\":0,\"alloc\":0,\"up\":\"\"");
   g_divert = false;
   vsched::finish();
+}
+
+void scenario_seq(const vrun::Params& p) {
+  make_window();
+  RecPages pages;
+  pages.P = (size_t)p.get("P", 256);
+  prime();
+  run_sequential(p, pages, true);
+}
+
+// scenario real: the same operation sequences on babylon's own allocator stack behind the recording decorator
+//   stack=nd      NewDeletePageAllocator(P)
+//   stack=cached  CachedPageAllocator -> NewDeletePageAllocator(P)
+//   stack=heap    PageHeap(P)
+void scenario_real(const vrun::Params& p) {
+  make_window(); // the upstream "rec" still lives in the window
+  size_t P = (size_t)p.get("P", 4096);
+  std::string stack = p.str("stack", "nd");
+  static ::babylon::NewDeletePageAllocator nd;
+  static ::babylon::CachedPageAllocator cached;
+  static ::babylon::PageHeap heap;
+  RealPages pages;
+  if (stack == "cached") {
+    nd.set_page_size(P);
+    cached.set_upstream(nd);
+    cached.set_free_page_capacity(4);
+    pages.inner = &cached;
+  } else if (stack == "heap") {
+    heap.set_page_size(P);
+    heap.set_free_page_capacity(4);
+    pages.inner = &heap;
+  } else {
+    nd.set_page_size(P);
+    pages.inner = &nd;
+  }
+  g_real_P = pages.page_size();
+  prime();
+  run_sequential(p, pages, false);
 }
 
 // ---------------------------------------------------------------- scenario shared
@@ -554,6 +652,7 @@ void scenario_shared(const vrun::Params& p) {
 struct Reg {
   Reg() {
     vrun::add("seq", scenario_seq, "P=256,prog=a:8:8.r");
+    vrun::add("real", scenario_real, "P=4096,stack=nd,prog=a:8:8.r");
     vrun::add("shared", scenario_shared, "P=256,variant=shared,again=1,prog=a:8:8.s2.a:300:8.d_a:8:8.d");
   }
 } reg;
